@@ -678,6 +678,19 @@ func TestReaderClose(t *testing.T) {
 			CommitMs:    rapid.SampledFrom([]int{0, 0, 10}).Draw(t, "commitMs"),
 			DelayUs:     rapid.SampledFrom([]int{0, 100, 2000, 30000}).Draw(t, "delayUs"),
 		}
+		if c.Blocked == "commit" {
+			// a commit can only be blocked in a group reader that fetched something, and stays blocked only while the
+			// coordinator does not answer it: make that combination the common one of this stratum
+			c.Group = true
+			if c.Records == 0 {
+				c.Records = 3
+			}
+			if c.FetchFirst == 0 {
+				c.FetchFirst = 1
+			}
+			c.BrokerState = rapid.SampledFrom([]string{"stall-commit", "stall-commit", "stall-commit", "slow", "normal"}).Draw(t, "commitBroker")
+			c.CommitMs = rapid.SampledFrom([]int{0, 0, 0, 10}).Draw(t, "commitMs2")
+		}
 		if c.Group && rapid.IntRange(0, 3).Draw(t, "rebalance") == 0 {
 			c.CloseDuring = "rebalance"
 		}
